@@ -395,10 +395,13 @@ class DiscriminatedUnionUnpackerBuilder(AbstractUnpackerBuilder):
             variant_method_name, spec
         )
         if discriminator.variant_tagger_fn:
+            # a name of its own: another discriminator of the same class may
+            # use another function
+            tagger_name = f"variant_tagger_fn_{random_hex()}"
             spec.builder.ensure_object_imported(
-                discriminator.variant_tagger_fn, "variant_tagger_fn"
+                discriminator.variant_tagger_fn, tagger_name
             )
-            variant_tagger_expr = "variant_tagger_fn(variant)"
+            variant_tagger_expr = f"{tagger_name}(variant)"
         else:
             variant_tagger_expr = f"variant.__dict__[{discriminator.field!r}]"
 
